@@ -12,6 +12,7 @@ import RigoProofs.C15Merge
 import RigoProofs.C15Punish
 import RigoProofs.C15Snapshot
 import RigoProofs.C15Majority
+import RigoProofs.C15Reach3
 
 namespace Rigo.C15
 open Rigo Rigo.Render
@@ -97,19 +98,30 @@ theorem revote_replaces {p : Proposal} (hp : PropOK p) (addr : Hex) (c : Int) (v
 
 /-! ### tallies -/
 
-/-- **tally_inv**, full statement (NOT proved at this strength): every open proposal in the consensus
-    view of a reachable state satisfies `PropOK` (distinct voters, choices −1 or in range, every option's
-    votes = Σ powers of the voters choosing it, majority = ⌊2·total/3⌋) -/
-def tally_inv_statement : Prop :=
-  ∀ (g : Genesis) (s : St), Reachable g s → ∀ (k : String) (p : Proposal), s.props.fin[k]? = some p → PropOK p
+/-- **tally_inv** — in every reachable state (any order of operations, no hypothesis on genesis or on
+    address formats): every open proposal in every view (consensus, mempool) and every committed version
+    of the proposal ledger satisfies `PropOK` — voters have distinct addresses, every choice is −1 or an
+    option index, every option's votes = Σ { v.power | v ∈ voters, v.choice = i }, majority = ⌊2·total/3⌋;
+    every frozen proposal (all views and versions) is such a proposal with its options sorted by votes
+    (`FrozenTallyOK`: same voters / total / majority, options a permutation); the validator list holds
+    every address once, and the delegatee ledger stores every delegatee under its own address key. -/
+theorem tally_inv {g : Genesis} {s : St} (h : Reachable g s) :
+    LedAll (fun _ p => PropOK p) s.props ∧ LedAll (fun _ p => FrozenTallyOK p) s.fprops ∧
+    DistinctD s.lastVals ∧ LedAll DKey s.delegs :=
+  ⟨(govInv_reachable h).props, (govInv_reachable h).fprops, (govInv_reachable h).lv, (govInv_reachable h).dk⟩
 
-/-- **tally_inv_partial** — `PropOK` is established at submission (given distinct validators) and kept by
-    the only three functions that ever modify a stored proposal: `doVote` (TRX_VOTING, in-range choice —
-    guaranteed by `only_snapshot_voters_vote_in_window`), `doPunish` (evidence, any ratio) and the
-    re-vote inside it.  Missing for the full statement: the reachable-state plumbing — `DistinctD lastVals`
-    (from the delegatee ledger being keyed by address, through `beginBlock` / `updateValidators`) and the
-    `LedAll PropOK` induction over `govPunish`, `freezeProposals`, commit and restart. -/
-theorem tally_inv_partial :
+/-- in particular the consensus view: the form stated in DESIGN.md -/
+theorem tally_inv_fin {g : Genesis} {s : St} (h : Reachable g s) (k : String) (p : Proposal)
+    (hp : s.props.fin[k]? = some p) (i : Nat) (o : VoteOpt) (ho : p.options[i]? = some o) :
+    o.votes = ((p.voters.filter (fun v => v.choice = (i : Int))).map (·.power)).sum := by
+  rw [← tally_eq_filter]
+  exact ((tally_inv h).1.1 k p hp).tallies i o ho
+
+/-- the per-function facts behind `tally_inv`: `PropOK` is established at submission (given distinct
+    validators) and kept by the only functions that ever modify a stored proposal: `doVote` (TRX_VOTING,
+    in-range choice — guaranteed by `only_snapshot_voters_vote_in_window`) and `doPunish` (evidence, any
+    ratio, including the re-vote inside it) -/
+theorem tally_inv_functions :
     (∀ (s : St) (tx : TxIn) (a b c d : Int) (opts : List VoteOpt), DistinctD s.lastVals →
       PropOK (snapshotProposal s tx a b c d opts)) ∧
     (∀ (p : Proposal) (addr : Hex) (c : Int), PropOK p → (c = -1 ∨ (0 ≤ c ∧ c < p.options.length)) →
